@@ -14,9 +14,15 @@ def gen_poly(rng, quick=True, max_rows=None, max_cols=None, wide=False):
     nc = rng.randint(1, max_cols or (4 if quick else 6))
     kind = rng.random()
     bnds = []
+    if wide == "all":
+        # every column an integer variable of the library's default range (what `dtype="int"` without bounds declares)
+        nc = rng.randint(3, 6)
+        kind = 1.0
     for _ in range(nc):
         r = rng.random()
-        if kind < 0.35 or r < 0.4:
+        if wide == "all":
+            bnds.append(rng.choice([[-32768, 32767], [-32768, 32767], [-32768, 32767], [0, 32767]]))
+        elif kind < 0.35 or r < 0.4:
             bnds.append([0, 1])
         elif r < 0.55:
             c = rng.randint(-2, 3); bnds.append([c, c])            # degenerate
@@ -33,6 +39,8 @@ def gen_poly(rng, quick=True, max_rows=None, max_cols=None, wide=False):
             j = rng.randrange(nc); cs[j] = rng.choice([-3, -2, 2, 3, -4])
         else:
             cs = [rng.choice(COEFS) for _ in range(nc)]
+        if wide == "all":
+            cs = [c if c != 0 or rng.random() < 0.2 else rng.choice([1, -1, 2]) for c in cs]    # dense rows
         lo = sum(min(c * b[0], c * b[1]) for c, b in zip(cs, bnds))
         hi = sum(max(c * b[0], c * b[1]) for c, b in zip(cs, bnds))
         t = rng.random()
